@@ -181,6 +181,7 @@ def caller_array_hazards(fnode, array_params=ARRAY_PARAMS, module_funcs=None, _d
             return name in fresh_from and (self.line is None or self.line > fresh_from[name])
     rebound_fresh = _Fresh()
     hazards = []
+    global_names = {n_ for st_ in ast.walk(fnode) if isinstance(st_, (ast.Global, ast.Nonlocal)) for n_ in st_.names}
     for st in body:
         for node in ast.walk(st):
             rebound_fresh = _Fresh(getattr(node, 'lineno', None))
@@ -191,6 +192,11 @@ def caller_array_hazards(fnode, array_params=ARRAY_PARAMS, module_funcs=None, _d
                     hazards.append(("in-place update of a caller-supplied array", node))
             elif isinstance(node, ast.Assign):
                 for t in node.targets:
+                    if isinstance(t, ast.Name) and t.id in global_names:
+                        vals = node.value.elts if isinstance(node.value, (ast.Tuple, ast.List)) else [node.value]
+                        for v in vals:
+                            if isinstance(v, ast.Name) and v.id in alias and v.id not in rebound_fresh:
+                                hazards.append(("a caller-supplied array is retained by reference in a module-level name", node))
                     if isinstance(t, ast.Subscript) and isinstance(t.value, ast.Name) and t.value.id in alias and t.value.id not in rebound_fresh:
                         hazards.append(("element assignment into a caller-supplied array", node))
                     if isinstance(t, ast.Attribute) or (isinstance(t, ast.Subscript) and not (isinstance(t.value, ast.Name) and t.value.id in alias)):
@@ -226,12 +232,25 @@ def caller_array_hazards(fnode, array_params=ARRAY_PARAMS, module_funcs=None, _d
                     if cparams and cparams[0] in ("self", "cls") and isinstance(node.func, ast.Attribute):
                         cparams = cparams[1:]
                     passed = {}
+                    def root_name(a_):
+                        # the alias an argument expression stands for: a name, or asarray(name) / name.reshape(...) of one
+                        if isinstance(a_, ast.Name):
+                            return a_.id
+                        if isinstance(a_, ast.Call):
+                            fn_ = a_.func
+                            nm_ = fn_.attr if isinstance(fn_, ast.Attribute) else fn_.id if isinstance(fn_, ast.Name) else None
+                            if nm_ in NOCOPY:
+                                if a_.args and isinstance(a_.args[0], ast.Name):
+                                    return a_.args[0].id
+                                if isinstance(fn_, ast.Attribute) and isinstance(fn_.value, ast.Name):
+                                    return fn_.value.id
+                        return None
                     for i_, a_ in enumerate(node.args):
-                        if isinstance(a_, ast.Name) and i_ < len(cparams):
-                            passed[cparams[i_]] = a_.id
+                        if root_name(a_) is not None and i_ < len(cparams):
+                            passed[cparams[i_]] = root_name(a_)
                     for kw in node.keywords:
-                        if kw.arg and isinstance(kw.value, ast.Name):
-                            passed[kw.arg] = kw.value.id
+                        if kw.arg and root_name(kw.value) is not None:
+                            passed[kw.arg] = root_name(kw.value)
                     hot = {p_: n_ for p_, n_ in passed.items() if n_ in alias and n_ not in rebound_fresh}
                     if hot:
                         bad = mutated_params(callee, module_funcs, _depth) & set(hot)
